@@ -1,4 +1,5 @@
 """C05 - field constraints, patterns and closedness admit exactly what the spec allows."""
+import os
 import vlib
 from checks import _core
 
@@ -13,6 +14,17 @@ def run(ctx):
         if proof["coqchk_rc"] != 0:
             raise vlib.CheckFailure("coqchk failed: " + proof["coqchk_tail"])
     harness, exe, hsecs = _core.build()
+    # corpus of named pairs that must evaluate alike (runs first); F* entries are known findings
+    known = {k["id"]: k for k in vlib.known_findings("C05") if k.get("status") == "known"}
+    pairs = _core.run_pairs(harness, os.path.join(vlib.VERIF, "corpus", "C05", "pairs.txt"), ctx.work)
+    for name, ca, cb in pairs:
+        if ca != cb:
+            kid = next((k for k in known if name.startswith(k)), None)
+            if kid is not None:
+                ctx.known_finding("%s (corpus/C05/pairs.txt): %s [finding %s]" % (name, known[kid]["description"], kid))
+            else:
+                ctx.violation({"kind": "closedness-corpus-pair-differs", "pair": name, "A": ca, "B": cb,
+                               "where": "corpus/C05/pairs.txt"})
     n = 12000 if quick else 250000
     cases, impl, model, src, _ = _core.run_mode(ctx, harness, exe, "c05", n)
     mism = 0
@@ -39,7 +51,7 @@ def run(ctx):
         "obligations": proof["obligations"], "discharged": proof["discharged"],
         "checker_cmd": proof["checker_cmd"] + ("; coqchk -silent -o Verif.Properties.C05" if not quick else ""),
         "trusted_base": _core.CORE_TRUSTED, "theorems": proof["theorems"], "axioms_reported": proof["axioms"],
-        "evaluations": len(cases), "distinct_nontrivial": nontrivial,
+        "evaluations": len(cases) + 2 * len(pairs), "distinct_nontrivial": nontrivial, "corpus_pairs": len(pairs),
         "rule": "1-3 schema conjuncts (schema literal, #Def, close(schema), literal embedding a #Def/close) unified with a data struct over the same labels; data mostly fills the labels the schemas mention, plus occasional extra labels and wrong atoms. verdict = error-free and every non-optional field concrete. non-trivial = distinct case with a closed scope and at least one field",
         "samples": [{"program": src[i], "impl": impl[i], "model": model[i]} for i in range(min(2, len(src)))],
         "verdicts": verdicts, "input_distribution": _core.shape_stats(impl),
